@@ -143,6 +143,14 @@ private:
 
   bool can_rewrite_linear_constraint(const linear_constraint_t &cst,
                                      unsigned coefficient) const {
+    // The ghost variable stands for x/coefficient which is not
+    // always an integer: the base domain would tighten a strict
+    // inequality or a disequality over the ghost variables as if
+    // they were integers (e.g., -8 - x < 0 would become x >= -4
+    // with coefficient 4).
+    if (cst.is_strict_inequality() || cst.is_disequation()) {
+      return false;
+    }
     return can_rewrite_linear_expression(cst.expression(), coefficient);
   }
 
